@@ -39,7 +39,35 @@ let lexer op args =
   | "lexshift" -> Some (show_lex (lex (arg args 0 @ arg args 1)))
   | _ -> None
 
+(* ---- whole-template rendering ---- *)
+let argd l i = if i < List.length l then List.nth l i else "-"
+
+let show_obs = function
+  | OOk out -> "ok:" ^ hex_of_str out
+  | OCompileErr _ -> "cerr"
+  | OExecErr (_, _) -> "xerr"
+  | OUnmod -> "unmodelled"
+  | OFuel -> "fuel"
+  | OPanic s -> Printf.sprintf "panic:%d" (int_of_n s)
+
+let world_of args =
+  let opts = argd args 3 in
+  { w_loaders = parse_files (argd args 2);
+    w_trim = String.contains opts 'T';
+    w_lstrip = String.contains opts 'L';
+    w_banned_filters = parse_hexlist (argd args 4);
+    w_banned_tags = parse_hexlist (argd args 5);
+    w_extra_filters = parse_hexlist (argd args 7);
+    w_extra_tags = parse_hexlist (argd args 8);
+    w_globals = parse_ctx (argd args 6) }
+
+let render op args =
+  match op with
+  | "render" -> Some (show_obs (api_render_string (world_of args) (arg args 0) (parse_ctx (argd args 1))))
+  | "renderfile" -> Some (show_obs (api_render_file (world_of args) (arg args 0) (parse_ctx (argd args 1))))
+  | _ -> None
+
 let first_some fs op args =
   List.fold_left (fun acc f -> match acc with Some _ -> acc | None -> f op args) None fs
 
-let run op args = first_some [c17; lexer] op args
+let run op args = first_some [c17; lexer; render] op args
